@@ -14,6 +14,8 @@ package ext
 // rdTrailerOK: the trailer section behind the last chunk was read without error. The end-of-body mark of a
 // chunked stream (chunkEOF, which makes skipRest a no-op) may only be set then.
 //@ ghost var rdTrailerOK bool
+//@ ghost var pfN int
+//@ ghost var pfSeen bool
 //@ func bodyStream.Read(rs, p) n, err
 //@   props C14, C11, C01
 //@   nosafety
@@ -25,7 +27,7 @@ package ext
 //@   requires rs.reader != nil
 //@   requires rs.chunkLeft >= 0
 //@   requires rs.contentLength == -1 ==> rs.trailer != nil
-//@   modifies *, rs.reader.pos, rs.reader.avail, rs.reader.failed, rdTrailerOK
+//@   modifies *, rs.reader.pos, rs.reader.avail, rs.reader.failed, rdTrailerOK, pfN, pfSeen
 //@   ensures old(rs.contentLength) == -1 ==> rs.chunkLeft >= 0
 //@   top-ensures @C14 old(rs.contentLength) == -1 && old(rs.chunkLeft) > 0 ==> 0 <= n && n <= len(p) && n <= old(rs.chunkLeft) && rs.chunkLeft == old(rs.chunkLeft) - n
 //@   top-ensures @C14 old(rs.contentLength) == -1 && old(rs.chunkEOF) ==> n == 0 && err != nil && rs.reader.pos == old(rs.reader.pos)
@@ -36,6 +38,14 @@ package ext
 //@   top-ensures old(rs.contentLength) >= 0 ==> rs.reader.pos >= old(rs.reader.pos) && rs.reader.pos - old(rs.reader.pos) <= old(rs.contentLength - rs.offset)
 //@   ensures old(rs.contentLength) >= 0 ==> 0 <= n && n <= len(p)
 //@   top-ensures @C14 old(rs.contentLength) >= 0 && err != io.EOF && err != io.ErrUnexpectedEOF ==> rs.offset == old(rs.offset) + n
+// (C14: the wire is consulted only once the prefetched prefix is exhausted, i.e. the read from it came back short of
+// len(p) - otherwise the call waits for bytes that may lie beyond the body while body bytes sit in the buffer.)
+//@   ghostset-at-entry pfSeen = false
+//@   ghostset after Read#0: pfN = result0
+//@   ghostset after Read#0: pfSeen = true
+//@   assert @C14 before Read#1: pfSeen ==> pfN != len(p)
+//@   assert @C14 before Read#2: pfSeen ==> pfN != len(p)
+//@   assert @C14 before Peek#1: pfSeen ==> pfN != len(p)
 
 // Reading or skipping the trailer section touches the reader and the trailer object; both are panic-free under
 // the reader model (the explicit panics of MustPeekBuffered / MustDiscard are proved unreachable at these calls).
@@ -143,8 +153,11 @@ package ext
 //@   loop 0:
 //@     invariant 0 <= len(dst) && (maxBodySize > 0 ==> len(dst) <= maxBodySize)
 
+// (C02: when nothing is buffered the loop waits for ONE more byte - a Peek for more than will ever arrive fails at
+// the peer's close although the bytes read meanwhile are buffered, and the body would end where a segment did.)
 //@ func readBodyIdentity(r, maxBodySize, dst) res, err
-//@   props C03, C11
+//@   props C03, C11, C02
+//@   assert @C02 before Peek#0: arg1 == 1
 //@   unreachable-return 1 :: Peek(nn) with nn <= Len() cannot fail under the reader model (it asks for bytes that are already buffered)
 //@   requires r != nil && 0 < maxBodySize && maxBodySize <= 70368744177664 && r.avail >= 0
 //@   modifies r.pos, r.avail, r.failed, mem
@@ -375,13 +388,19 @@ package ext
 // announced Content-Length can follow the header.
 //@ ghost var wfLim int
 //@ ghost var wfSet bool
+//@ ghost var wfN int
+//@ ghost var wfCopied bool
 //@ func WriteBodyFixedSize(w, r, size) err
 //@   props C04, C11
 //@   abstract
 //@   noinline
-//@   modifies wfLim, wfSet
+//@   modifies wfLim, wfSet, wfN, wfCopied
 //@   ghostset-at-entry wfSet = false
+//@   ghostset-at-entry wfCopied = false
 //@   assert before LimitReader: arg0 == r && arg1 == size
 //@   ghostset after LimitReader: wfLim = result
 //@   ghostset after LimitReader: wfSet = true
 //@   assert before CopyZeroAlloc: arg0 == w && (size > 0 ==> wfSet && arg1 == wfLim)
+//@   ghostset after CopyZeroAlloc: wfN = result0
+//@   ghostset after CopyZeroAlloc: wfCopied = true
+//@   ensures @C04 wfCopied && wfN != size ==> err != nil
